@@ -90,6 +90,9 @@ type c17Case struct {
 	// FailedDigestBefore > 0: before every verification, provenance.Digest is run over that many bytes of unrelated
 	// data from a reader that then fails
 	FailedDigestBefore int `json:"failed_digest_before,omitempty"`
+	// ArchiveUnreadable: the archive path exists and can be opened, but reading it fails (a symbolic link to
+	// /proc/self/mem: the first read returns an I/O error). Its bytes cannot be the signed ones: nothing may verify.
+	ArchiveUnreadable bool `json:"archive_unreadable,omitempty"`
 }
 
 var c17AllEntries = []string{"signatory", "signatory-keyringfile", "signatory-holding-signing-key", "verifychart", "action-verify", "locate-verify", "download-verify-always"}
@@ -459,13 +462,37 @@ func c17Judge(tb vt.TB, env *c17Env, cs c17Case) (v c17Verdict) {
 	dir := env.newDir()
 	defer os.RemoveAll(dir)
 	path := filepath.Join(dir, cs.Name)
-	if err := os.WriteFile(path, cs.Archive, 0o644); err != nil {
+	if cs.ArchiveUnreadable {
+		if err := os.Symlink("/proc/self/mem", path); err != nil {
+			tb.Fatalf("harness: %v", err)
+		}
+		if f, err := os.Open(path); err == nil {
+			_, rerr := f.Read(make([]byte, 16))
+			f.Close()
+			if rerr == nil {
+				evid.Note("C17:not-judged/unreadable-archive-could-not-be-produced-here")
+				return v
+			}
+		}
+	} else if err := os.WriteFile(path, cs.Archive, 0o644); err != nil {
 		tb.Fatalf("harness: %v", err)
 	}
 	if !cs.NoProv {
 		if err := os.WriteFile(path+".prov", cs.Prov, 0o644); err != nil {
 			tb.Fatalf("harness: %v", err)
 		}
+	}
+	if cs.ArchiveUnreadable {
+		// every entry point that verifies files on disk must refuse
+		for _, e := range []string{"signatory", "signatory-keyringfile", "signatory-holding-signing-key", "verifychart", "action-verify", "locate-verify"} {
+			if o := c17RunEntry(tb, env, e, dir, &cs); o.OK {
+				v.Cut = true
+				vt.Violation(tb, "C17:accepted/archive-that-cannot-be-read/"+e, fmt.Sprintf("entry=%s helm: ok=%v filehash=%q; the archive path is a link to /proc/self/mem (reads fail)", e, o.OK, o.FileHash), cs)
+				return v
+			}
+		}
+		v.HelmOK = false
+		return v
 	}
 
 	// independent facts
@@ -760,6 +787,12 @@ func c17Generate(t *rapid.T, env *c17Env) (g c17Gen, cut bool) {
 	}
 	cs := c17Case{Name: name, Archive: archive, Prov: prov, Ring: ring, Signers: []string{key}, Entries: c17AllEntries, Mutation: mut}
 	cs.FailedDigestBefore = rapid.SampledFrom([]int{0, 0, 1, 64, 4096}).Draw(t, "failedDigestBefore")
+	if rapid.IntRange(0, 19).Draw(t, "archiveUnreadable") == 0 {
+		cs.ArchiveUnreadable = true
+		cs.FailedDigestBefore = 0
+		g.Case, g.Desc = cs, fmt.Sprintf("archive-unreadable/chart=%s-%s/desc=%q/notes=%q/key=%s/route=%s/ring=%s", spec.Name, spec.Version, spec.Description, spec.Notes, key, route, strings.Join(ring, ","))
+		return g, false
+	}
 	param := ""
 	otherKey := func() string {
 		var o []string
